@@ -1018,6 +1018,143 @@ def nrm2(p, res, rule="NRM-2"):
     return n
 
 
+def _carry_helper_count(p, f, sym, t):
+    """a call of a local helper that runs the digit / carry pair over its carry argument `count` times (a `for _ in 0..count` loop around get_digit / get_carry): the count
+    argument as an expression of the caller, else None"""
+    d = f.callee_def(t) or {}
+    if not d.get("u", "").startswith("poulpy_cpu_ref::reference") or d.get("n", "").startswith(("znx_", "nfc_zero")):
+        return None
+    h = p.fn(d["u"])
+    if h is None or not h.blocks or len(h.blocks) > 40:
+        return None
+    # the helper (or its closure) applies get_carry
+    names = set()
+    for q in [h] + [c for c in p.fns.values() if c.kind == "Closure" and c.uid.startswith(h.uid + "::")]:
+        for _, t2 in q.calls():
+            names.add((q.callee_def(t2) or {}).get("n"))
+    if not names & {"get_carry_i64", "get_carry_i128"}:
+        return None
+    hg = CFG(h)
+    hflow = Flow(h)
+    hsym = Sym(h, hflow)
+    for b2, t2 in h.calls():
+        if (h.callee_def(t2) or {}).get("n") == "next" and hg.innermost_loop(b2) is not None:
+            rb = _range_bounds(h, hflow, hsym, t2)
+            if rb is not None:
+                at = list(rb[1].atoms())
+                if rb[0].is_const() and (rb[0].const_value() or 0) == 0 and len(at) == 1 and at[0][0] == "p" and not at[0][2] and at[0][1] - 1 < len(t["a"]):
+                    return sym.operand(t["a"][at[0][1] - 1])
+    return None
+
+
+def nrm3(p, res, rule="NRM-3"):
+    """same-radix normalisation with a signed limb offset L (limb i of the operand aligns with limb i - L of the result): the carry chain starts at the last limb of the
+    operand and ends at limb 0 of the result, so it has  max(size(operand) - L, 0)  steps for every operand size, result size and offset - limbs of the operand below the result
+    are crossed carry-only, limb positions between the operand and the result (offset more negative than the result is long) are crossed too.  A shorter chain deposits the
+    carry too high."""
+    import random
+    from . import pwl, sc
+    n = 0
+    for f in sorted(p.lib_fns(), key=lambda x: x.uid):
+        if f.kind == "Closure" or not f.blocks or not f.uid.startswith(("poulpy_cpu_ref::reference", "poulpy_cpu_avx")) or "normalize" not in f.name or f.name.endswith("tmp_bytes"):
+            continue
+        g = CFG(f)
+        sym = Sym(f, Flow(f))
+        sites = {}
+        helpers = []
+        for bi, t in f.calls():
+            cn = (f.callee_def(t) or {}).get("n", "")
+            if (cn.startswith("znx_normalize_") or (cn.startswith("nfc_") and ("step" in cn or "carry" in cn))) and g.innermost_loop(bi) is not None:
+                sites[bi] = 1
+            elif g.innermost_loop(bi) is None:
+                cnt = _carry_helper_count(p, f, sym, t)
+                if cnt is not None:
+                    helpers.append(cnt)
+        if not sites:
+            continue
+        trips = {}
+        plain = True
+        for bi in sites:
+            l = g.innermost_loop(bi)
+            h = l["header"]
+            if h in trips:
+                continue
+            tc = None
+            for b2 in sorted(l["body"]):
+                t2 = f.blocks[b2]["t"]
+                if t2 and t2["k"] == "Call" and (f.callee_def(t2) or {}).get("n") == "next" and g.innermost_loop(b2) is l:
+                    rb = _range_bounds(f, Flow(f), sym, t2)
+                    if rb is not None:
+                        tc = (rb[0], rb[1])
+            if tc is None:
+                plain = False
+            trips[h] = tc
+        # the offset variable: a phi (mutable i64) that the clamp arguments of the trip counts depend on
+        phis, sizes, clamps = set(), set(), 0
+        if plain:
+            for tc in trips.values():
+                for pl in tc:
+                    for a in _all_atoms(pl):
+                        if a[0] == "call" and a[1] == f.uid:
+                            t2 = f.blocks[a[2]]["t"]
+                            if (f.callee_def(t2) or {}).get("n") == "clamp":
+                                clamps += 1
+                                for o in t2["a"]:
+                                    for b in _all_atoms(sym.operand(o)):
+                                        if b[0] == "phi":
+                                            phis.add(b)
+                                        elif b[0] == "f" and b[1] == "size":
+                                            sizes.add(b)
+        if not clamps:
+            continue            # not an offset-driven chain (plain normalisation)
+        foreign = False
+        if plain:
+            for tc in trips.values():
+                for pl in tc:
+                    for a in _all_atoms(pl):
+                        if a[0] == "p" or (a[0] == "f" and a[1] not in ("size", "min", "max", "saturating_sub")):
+                            foreign = True
+                        elif a[0] == "call" and not (a[1] == f.uid and (f.callee_def(f.blocks[a[2]]["t"]) or {}).get("n") == "clamp"):
+                            foreign = True
+        if foreign:
+            continue            # cross-radix forms: limb counts of two radices do not add (not decided)
+        pn = {v: k for k, v in f.param_names().items()}
+        src = [a for a in sizes if any(x[0] == "p" and x[1] == pn.get("a") for mono, c in a[2][0] for x in mono)]
+        if not plain or len(phis) != 1 or len(src) != 1:
+            res.undec(rule, "%s: the chain loops are not plain ranges over clamps of one offset variable and the operand size" % f.pretty)
+            continue
+        n += 1
+        L, A = Poly.atom(list(phis)[0]), Poly.atom(src[0])
+        phikey = repr(list(phis)[0])
+        bad = None
+        rnd = random.Random(4242)
+        for i in range(4000):
+            r = random.Random(rnd.random())
+            span = (3, 6, 10)[i % 3]
+            ev = pwl.Eval(p, {"__fresh__": (lambda k, r=r, span=span: r.randint(-span - 3, span + 3) if k == phikey else r.randint(1, span))})
+            ev.syms[f.uid] = sym
+            try:
+                tot = 0
+                for h, (lo, hi) in trips.items():
+                    tot += max(ev.poly(hi) - ev.poly(lo), 0)
+                for c in helpers:
+                    tot += max(ev.poly(c), 0)
+                a_, l_ = ev.poly(A), ev.poly(L)
+            except pwl.ErrPath:
+                continue
+            want = max(a_ - l_, 0)
+            if tot != want and bad is None:
+                bad = {"operand_limbs": a_, "limb_offset": l_, "chain_steps": tot, "expected": want, "valuation": {k[:60]: v for k, v in ev.val.items() if k != "__fresh__"}}
+        if bad:
+            res.bad(rule, f.pretty, "carry-chain-length",
+                    "%s: with %d operand limb(s) and a limb offset of %d the carry passes through %d normalisation steps instead of %d: the carry out of the top limb is deposited %d limb(s) "
+                    "too high (offset more negative than the result is long)" % (f.pretty, bad["operand_limbs"], bad["limb_offset"], bad["chain_steps"], bad["expected"],
+                                                                                bad["expected"] - bad["chain_steps"]), site=f.where(), detail=bad)
+        else:
+            res.ok(rule, {"fn": f.pretty, "chain_loops": len(trips), "law": "steps of the chain == max(size(operand) - limb_offset, 0)"})
+    return n
+
+
 def _all_atoms(pl, depth=0):
     out = []
     for a in pl.atoms():
